@@ -204,6 +204,12 @@ impl<'a> View<'a> {
                 _ => {}
             }
         }
+        // operations that were only begun after the run phase was over (a client that had been
+        // waiting for a long time came back during settle/drain) and did not finish are not
+        // evidence of anything: the harness stopped the world on them
+        if let Some(&settle) = phase_at.get(&Phase::Settle) {
+            ops.retain(|o| !(o.end.is_none() && o.begin > settle));
+        }
         for (i, o) in ops.iter().enumerate() {
             if let Some(a) = o.actor {
                 if matches!(
